@@ -5,6 +5,7 @@
 import Gts.Lemmas.Delete
 import Gts.Model.Seq
 import Gts.Model.GbSlice
+import Gts.Model.GbSliceRec
 import Gts.Lemmas.Bounds
 import Gts.Lemmas.Window
 import Gts.Lemmas.SliceWrap
@@ -927,6 +928,154 @@ theorem gen_slice_unparsable_kept (gbf : Gen.GbFields.GenBankFields) (a b : Int)
     | nil => rfl
     | cons r l ih => simp [Bridge.renumberFrom, ih]
   exact this 0 _
+
+section RecordRefs
+open Gts.GenBank
+
+/-! ### REFERENCE ranges at the RECORD level: forward windows (holds) and wrap-around windows (known finding K3R)
+
+`GenBank.sliceHeader f L a b` (`Model/GbSliceRec.lean`) is the header `gts.Slice` gives a GenBank record of `L`
+residues.  The property's clause — "REFERENCE base ranges are clipped to the window, re-based, dropped when disjoint
+and renumbered consecutively", for "all windows (forward and wrap-around …)" — is stated against an independent
+specification: `referencesSpec pieces f`, where `pieces r` lists what is left of the range `r = [s, e)` in window
+coordinates. -/
+
+/-- forward window `[a, b)`: the intersection, counted from `a` -/
+def fwdPieces (a b : Int) (r : Int × Int) : List (Int × Int) :=
+  if gmax r.1 a < gmin r.2 b then [(gmax r.1 a - a, gmin r.2 b - a)] else []
+
+/-- wrap-around window `[a, L) ++ [0, b)`: the part of the range inside the tail `[a, L)` moves to `x - a`, the part
+inside the head `[0, b)` to `x + (L - a)` (together `x ↦ (x - a) mod L`, the map of the residues, `slice_wrap_map`);
+a range that runs across the origin of the record stays ONE range (its two pieces abut at window position `L - a`);
+otherwise the pieces are listed in window order; a range disjoint from the window leaves nothing (same function as
+`wrapRefSpec` of harness/props_c03_refs.go) -/
+def wrapPieces (L a b : Int) (r : Int × Int) : List (Int × Int) :=
+  let t := (gmax r.1 a, gmin r.2 L)
+  let h := (gmax r.1 0, gmin r.2 b)
+  if t.1 < t.2 then
+    if h.1 < h.2 then
+      if t.2 - a = h.1 + (L - a) then [(t.1 - a, h.2 + (L - a))]
+      else [(t.1 - a, t.2 - a), (h.1 + (L - a), h.2 + (L - a))]
+    else [(t.1 - a, t.2 - a)]
+  else if h.1 < h.2 then [(h.1 + (L - a), h.2 + (L - a))] else []
+
+/-- one reference info: unparsable = verbatim; no piece left = dropped; else the pieces, printed -/
+def refInfoSpec (pieces : Int × Int → List (Int × Int)) (pref info : Pars.Bytes) : Option Pars.Bytes :=
+  match parseRefInfo pref info with
+  | none => some info
+  | some rs => if (rs.flatMap pieces).isEmpty then none else some (fmtRanges pref (rs.flatMap pieces))
+
+/-- the references the clause prescribes: clipped / dropped as above, the kept ones renumbered `1..m` -/
+def referencesSpec (pieces : Int × Int → List (Int × Int)) (f : Fields) : List Reference :=
+  renumberRefs (f.references.filterMap fun r =>
+    (refInfoSpec pieces (counterWord f.molecule) r.info).map fun i => { r with info := i })
+
+/-- the code's `filter overlap; map clipRange` IS the intersection list, for proper ranges and a non-empty window -/
+theorem fwdPieces_eq (a b : Int) (hab : a < b) (rs : List (Int × Int)) (hp : ∀ r ∈ rs, r.1 < r.2) :
+    (rs.filter fun r => rangeOverlap r.1 r.2 a b).map (clipRange a b) = rs.flatMap (fwdPieces a b) := by
+  induction rs with
+  | nil => rfl
+  | cons r rs ih =>
+    have h1 := hp r (List.mem_cons_self ..)
+    have ih' := ih (fun x hx => hp x (List.mem_cons_of_mem _ hx))
+    have ho : rangeOverlap r.1 r.2 a b = (decide (r.1 < b) && decide (a < r.2)) := by
+      unfold rangeOverlap
+      rw [if_neg (by omega), if_neg (by omega)]
+    simp only [List.filter_cons, List.flatMap_cons, ho]
+    by_cases c : r.1 < b ∧ a < r.2
+    · have hlt : gmax r.1 a < gmin r.2 b := by unfold gmax gmin; split <;> split <;> omega
+      have hc : clipRange a b r = (gmax r.1 a - a, gmin r.2 b - a) := by
+        unfold clipRange gmax gmin
+        ext <;> simp only <;> split <;> split <;> omega
+      simp only [c.1, c.2, decide_true, Bool.and_self, if_true, List.map_cons, ih', fwdPieces, if_pos hlt, hc,
+        List.cons_append, List.nil_append]
+    · have hlt : ¬ (gmax r.1 a < gmin r.2 b) := by unfold gmax gmin; split <;> split <;> omega
+      have hd : (decide (r.1 < b) && decide (a < r.2)) = false := by
+        simp only [Bool.and_eq_false_iff, decide_eq_false_iff_not]; omega
+      simp only [hd, fwdPieces, if_neg hlt, List.nil_append, Bool.false_eq_true, if_false]
+      exact ih'
+
+/-- **REFERENCE ranges, forward window** (`0 ≤ a < b`): the clause "clipped to the window, re-based, dropped
+when disjoint, renumbered" HOLDS — the header of the slice carries exactly the references the
+independent statement `referencesSpec (fwdPieces a b)` prescribes: an unparsable info verbatim; a parsed one
+with, for each range, its intersection with `[a, b)` counted from `a` (`fwdPieces`; `clipRange_spec`,
+`clipRange_inside` say the same of the code's `clipRange` position by position), dropped when no range meets
+the window; numbers `1..m`. -/
+theorem slice_fwd_refs (f : Fields) (L a b : Int) (ha : 0 ≤ a) (hab : a < b) :
+    (sliceHeader f L a b).references = referencesSpec (fwdPieces a b) f := by
+  have hw : sliceWindow L a b = (a, b) := by
+    unfold sliceWindow sliceIndex
+    rw [if_neg (by omega), if_neg (by omega), if_neg (by omega)]
+  have hinfo : ∀ info, sliceRefInfo (counterWord f.molecule) a b info
+      = refInfoSpec (fwdPieces a b) (counterWord f.molecule) info := by
+    intro info
+    unfold sliceRefInfo refInfoSpec
+    cases hpr : parseRefInfo (counterWord f.molecule) info with
+    | none => rfl
+    | some rs =>
+      simp only
+      have hp := parseRefInfo_proper _ _ rs hpr
+      rw [← fwdPieces_eq a b hab rs hp]
+      by_cases hemp : (rs.filter fun r => rangeOverlap r.1 r.2 a b).isEmpty
+      · simp [hemp]
+      · simp [hemp]
+  simp only [sliceHeader, hw, Fields.slice, Fields.withTopology, sliceReferences, referencesSpec]
+  congr 1
+  have hfun : (fun r : Reference => (sliceRefInfo (counterWord f.molecule) a b r.info).map fun i => { r with info := i })
+      = (fun r : Reference => (refInfoSpec (fwdPieces a b) (counterWord f.molecule) r.info).map fun i => { r with info := i }) := by
+    funext r
+    congr 1
+    exact hinfo r.info
+  rw [hfun]
+
+/-- the witness of K3R: ten residues, `REFERENCE 1 (bases 9 to 10)`, `REFERENCE 2 (bases 5 to 6)`; window `Slice(seq, 8, 4)`
+= residues `9,10,1..4` -/
+def witF : Fields :=
+  { (default : Fields) with
+    molecule := [68, 78, 65]
+    references := [{ (default : Reference) with number := 1, info := [40, 98, 97, 115, 101, 115, 32, 57, 32, 116, 111, 32, 49, 48, 41] },
+                   { (default : Reference) with number := 2, info := [40, 98, 97, 115, 101, 115, 32, 53, 32, 116, 111, 32, 54, 41] }] }
+
+
+/-- what the model (and the code) answers at the witness: REFERENCE 1 `(bases 9 to 10)` — residues INSIDE the
+window — is dropped, REFERENCE 2 `(bases 5 to 6)` — residues OUTSIDE it — is kept, un-rebased, as number 1 -/
+theorem slice_wrap_refs_witness :
+    (sliceHeader witF 10 8 4).references.map (fun r => (r.number, r.info)) = [(1, [40, 98, 97, 115, 101, 115, 32, 53, 32, 116, 111, 32, 54, 41])] := by
+  decide +kernel
+
+/-- what the property's clause demands there -/
+theorem slice_wrap_refs_witness_spec :
+    (referencesSpec (wrapPieces 10 8 4) witF).map (fun r => (r.number, r.info)) = [(1, [40, 98, 97, 115, 101, 115, 32, 49, 32, 116, 111, 32, 50, 41])] := by
+  decide +kernel
+
+/-- FULL STATEMENT of the REFERENCE clause for a WRAP-AROUND window (false on the model and on the code: known
+finding K3R): "for every header and every window `0 ≤ b < a ≤ L` the references of the slice are the ranges clipped to
+the window `[a, L) ++ [0, b)`, re-based by `(x - a) mod L`, dropped when disjoint, renumbered".  `gts.Slice` rotates
+residues and table by `-a` but not the header (`GenBankFields` has no `Shift` / `Expand`), then clips the UN-rotated
+ranges against `[0, L - a + b)`.  Witness `witF`, window `(8, 4)`: `(bases 9 to 10)` — inside the window, new
+positions `1 to 2` — is DROPPED; `(bases 5 to 6)` — outside the window — is KEPT as `(bases 5 to 6)`.  Replayed on the
+real code by op `gb.slice` (witness of K3R in known_findings.json), flagged by oracle `c03RefsWrap`.
+The clause HOLDS for forward windows: `slice_fwd_refs`. -/
+theorem slice_wrap_refs_full_refuted :
+    ¬ (∀ (f : Fields) (L a b : Int), 0 ≤ b → b < a → a ≤ L →
+        (sliceHeader f L a b).references = referencesSpec (wrapPieces L a b) f) := by
+  intro h
+  have := h witF 10 8 4 (by decide) (by decide) (by decide)
+  have h2 := congrArg (List.map fun r => (r.number, r.info)) this
+  rw [slice_wrap_refs_witness, slice_wrap_refs_witness_spec] at h2
+  revert h2
+  decide
+
+/-- non-vacuity of `slice_fwd_refs`, and `wrapPieces` on the shapes the oracle names: a range inside the tail, one
+across the origin of the record (stays one range), one meeting both parts without the junction (two ranges, window
+order), one disjoint -/
+example : (0 : Int) ≤ 2 ∧ (2 : Int) < 8 ∧
+    (sliceHeader witF 10 2 8).references.map (fun r => r.number) = [1] ∧
+    wrapPieces 10 8 4 (8, 10) = [(0, 2)] ∧ wrapPieces 10 8 4 (6, 10) = [(0, 2)] ∧
+    wrapPieces 10 8 4 (0, 10) = [(0, 6)] ∧ wrapPieces 10 8 4 (2, 9) = [(0, 1), (4, 6)] ∧
+    wrapPieces 10 8 4 (4, 6) = [] := by decide +kernel
+
+end RecordRefs
 
 /-- non-vacuity: `(sites)` is no range list under the counter word `bases` -/
 example : parseRefInfo (Gen.GbSlice.moleculeCounter (Gen.GoStrings.wsLit "DNA")) (Gen.GoStrings.wsLit "(sites)") = none := by
